@@ -113,6 +113,34 @@ class RenameField(BaseModelFieldMutation):
         model_sig.remove_field_sig(self.old_field_name)
         model_sig.add_field_sig(field_sig)
 
+        # If the field was used in unique_together, index_together or in an
+        # index, update those to refer to the new field name.
+        old_field_name = self.old_field_name
+        new_field_name = self.new_field_name
+
+        def _rename_in(field_names):
+            return [
+                new_field_name
+                if _name == old_field_name
+                else ('-%s' % new_field_name
+                      if _name == '-%s' % old_field_name
+                      else _name)
+                for _name in field_names
+            ]
+
+        model_sig.unique_together = [
+            tuple(_rename_in(_entry))
+            for _entry in model_sig.unique_together
+        ]
+        model_sig.index_together = [
+            tuple(_rename_in(_entry))
+            for _entry in model_sig.index_together
+        ]
+
+        for index_sig in model_sig.index_sigs:
+            if index_sig.fields:
+                index_sig.fields = _rename_in(index_sig.fields)
+
     def mutate(self, mutator, model):
         """Schedule a field rename on the mutator.
 
